@@ -310,7 +310,13 @@ HttpReply::hdrExpirationTime()
          * bad or malformed Expires header as equivalent to "expires
          * immediately."
          */
-        return e < 0 ? squid_curtime : e;
+        if (e < 0) {
+            // Expire at the response's own Date when there is one, so that
+            // StoreEntry::timestampsSet() computes a zero freshness lifetime
+            // even when it replaces a too-old Date with the current time.
+            return (date >= 0) ? date : squid_curtime;
+        }
+        return e;
     }
 
     return -1;
